@@ -794,6 +794,7 @@ class SymEx:
         root = ('lc', name, lid)
         ops = []
         normal_conds = []
+        skipped = False
         for p in paths:
             if p.outcome == 'raise':
                 continue
@@ -802,6 +803,7 @@ class SymEx:
             normal_conds.append({(T.tkey(c), b) for c, b, _ in p.conds})
             v = p.env.get(name) if get is None else get(p)
             if v == root:
+                skipped = True
                 continue
             if v[0] == 'call' and v[1][0] == 'ext' and v[1][1] in ('APPENDED', 'SETITEM') and v[2][0] == root and not v[3]:
                 ops.append((p, v))
@@ -826,7 +828,10 @@ class SymEx:
         if len(elts) > 1:
             if not all(T.teq(e[0], elts[0][0]) for e in elts):
                 return None
-            conds = (('or', tuple(('and', c) if len(c) > 1 else (c[0] if c else TRUE) for _, c in elts)),)
+            if not skipped and not any(p.outcome == 'raise' for p in paths):
+                conds = ()              # every way through the body adds the same element: the branches (of something else computed alongside) filter nothing
+            else:
+                conds = (('or', tuple(('and', c) if len(c) > 1 else (c[0] if c else TRUE) for _, c in elts)),)
             elt = elts[0][0]
         else:
             elt, conds = elts[0]
@@ -2516,6 +2521,11 @@ def _literal_rows(it):
         inner = _literal_rows(it[2][0])
         if inner[0] in ('list', 'tuple'):
             return ('list', tuple(('tuple', (num(i), v)) for i, v in enumerate(inner[1])))
+    if it[0] == 'call' and it[1] == ('ext', 'ZIP') and len(it[2]) == 1 and not it[3] and it[2][0][0] == 'starred':
+        # zip(*[(a(x), b(x), ...) for x in xs]): the transpose - one sequence per component
+        rows = it[2][0][1]
+        if rows[0] == 'comp' and rows[1] in ('list', 'gen') and rows[2][0] == 'tuple' and rows[2][1] and not any(z[0] == 'starred' for z in rows[2][1]):
+            return ('list', tuple(('comp', 'list', comp_, rows[3]) for comp_ in rows[2][1]))
     if it[0] == 'call' and it[1] == ('ext', 'ZIP') and len(it[2]) >= 2 and not it[3]:
         cols = [_literal_rows(c) for c in it[2]]
         if all(c[0] in ('list', 'tuple') for c in cols):
@@ -2660,7 +2670,7 @@ def _const_items(it):
     if it[0] == 'call' and it[1] == ('ext', 'RANGE') and 1 <= len(it[2]) <= 3 and not it[3] and all(a[0] == 'num' and a[1].denominator == 1 for a in it[2]):
         r = range(*[int(a[1]) for a in it[2]])
         return [num(v) for v in r] if len(r) <= 16 else None
-    if it[0] in ('list', 'tuple') and len(it[1]) <= 16 and all(z[0] in ('num', 'str', 'const', 'tuple') for z in it[1]):
+    if it[0] in ('list', 'tuple') and len(it[1]) <= 16 and all(z[0] in ('num', 'str', 'const', 'tuple', 'comp') for z in it[1]):
         return list(it[1])
     return None
 
